@@ -547,3 +547,68 @@ def gen_abort_cases(seed, n):
             c["sleep_ms"] = 1500
         cases.append(c)
     return cases
+
+
+# --------------------------------------------------------------------------------------------
+# C09 soak on the real kernel: many near-instant tasks under -j, several Conductors at once.
+# Bounded-progress predicate: main thread blocked in the self-pipe read while the process has no
+# children at all is a state Conductor can never leave (no child => no SIGCHLD => no pipe byte).
+# --------------------------------------------------------------------------------------------
+
+def _children(pid):
+    try:
+        with open("/proc/%d/task/%d/children" % (pid, pid)) as f:
+            return f.read().split()
+    except OSError:
+        return None
+
+
+def soak_case(case):
+    cli.warm()
+    out = {"sig": "soak-" + common.short_hash(case), "nontrivial": True, "reach": {}, "violations": [], "inconclusive": [], "sets": {}}
+    rng = random.Random(case["seed"])
+    with common.Scratch("cvsoak") as sc:
+        n = case["ntasks"]
+        tasks = []
+        for i in range(n):
+            deps = []
+            if i and rng.random() < case.get("p_dep", 0.1):
+                deps = [tasks[rng.randrange(len(tasks))]["id"]]
+            t = gen.mk_task("", "s%d" % i, "run_command", deps, par=rng.random() < case.get("par_p", 1.0), run=rng.choice(["true", "true", ":", "exit 0", "echo -n"]))
+            t["raw_run"] = True
+            tasks.append(t)
+        tasks.append(gen.mk_task("", "all", "group", [t["id"] for t in tasks]))
+        pr = realrun.Project(sc.root, tasks, {})
+        stuck = {"since": None, "hit": False}
+
+        def poll(pid):
+            ch = _children(pid)
+            if ch is not None and not ch and "pipe" in _wchan(pid):
+                if stuck["since"] is None:
+                    stuck["since"] = time.monotonic()
+                elif time.monotonic() - stuck["since"] > 1.5:
+                    stuck["hit"] = True
+                    try:
+                        os.kill(pid, signal.SIGKILL)
+                    except OSError:
+                        pass
+            else:
+                stuck["since"] = None
+
+        if case.get("pin"):
+            try:
+                os.sched_setaffinity(0, set(case["pin"]))
+            except OSError:
+                pass
+        r = pr.cond(["run", "//:all", "-j", str(case["jobs"])], timeout=120, poll=poll)
+        out["reach"]["c09_soak_runs"] = 1
+        out["reach"]["c09_soak_task_completions"] = r.out.count("completed successfully")
+        W = {"engine": "E1-soak", "case": case, "result": cli.brief(r, 600)}
+        if stuck["hit"]:
+            out["violations"].append({"key": "C09:run-blocks-forever-with-no-running-task", "msg": "[real processes] cond run -j%d of %d instant tasks sat in the self-pipe read with no child process left (%d of %d tasks reported complete)" % (case["jobs"], n, r.out.count("completed successfully") , n + 1), "witness": W})
+        elif r["timed_out"]:
+            out["inconclusive"].append({"why": "soak watchdog", "detail": cli.brief(r, 300)})
+        elif r.code != 0 or r.out.count("completed successfully") != n + 1:
+            out["violations"].append({"key": "C09:task-without-exactly-one-outcome", "msg": "[real processes] soak: exit %s, %d of %d tasks reported complete" % (r.code, r.out.count("completed successfully"), n + 1), "witness": W})
+        out["sample"] = {"engine": "E1-soak", "ntasks": n, "jobs": case["jobs"], "exit": r.code, "wall": round(r["wall"], 2)}
+    return out
